@@ -8,9 +8,9 @@ Separate Extraction
   enc_len dec_len utf8_valid
   GroupDataExt.serialize GroupDataExt.deserialize GroupDataExt.wf GroupDataExt.roundtrip_ok
   Contract.empty Contract.step Contract.run
-  Engine.init_client Engine.join_client Engine.deliver Engine.committed Engine.merge_pending Engine.clear_pending Engine.sent Engine.sent_as Engine.leave_created Engine.restart AMap.aget
+  Contract.upd_ptr Contract.ptr_of Engine.init_client Engine.join_client Engine.deliver Engine.committed Engine.merge_pending Engine.clear_pending Engine.sent Engine.sent_as Engine.leave_created Engine.restart AMap.aget
   Keyring.open_db Keyring.mode_after Keyring.created_dir_modes
-  Welcome.process_welcome Welcome.accept_welcome Welcome.decline_welcome Welcome.note_message Welcome.evict Welcome.empty_st
+  Welcome.process_welcome Welcome.accept_welcome Welcome.decline_welcome Welcome.note_message Welcome.evict Welcome.self_updated Welcome.empty_st
   MediaCtx.mctx MediaCtx.mctx_guards MediaCtx.validate_mime MediaCtx.filename_valid Media.scenario_ok Media.same_file_twice
   EventCodec.b64_encode EventCodec.b64_decode EventCodec.hex_encode EventCodec.hex_decode EventCodec.kp_verdict EventCodec.welcome_verdict
   StmtProg.show_prog StmtProg.smallest_failing_k StmtProg.first_guard_rewrite.
